@@ -158,7 +158,7 @@ class MultiSim:
         inplace = kwargs.pop('inplace', True)
         debug = kwargs.pop('debug', False)
         if debug:
-            run_sims = [single_run(sim, **kwargs) for sim in sims]
+            run_sims = multi_run(sims, **sc.mergedicts(kwargs, dict(parallel=False))) # Run in serial
         else: # The next line does all the work!
             run_sims = multi_run(sims, **kwargs) # Output sims are copies due to the pickling during parallelization
 
